@@ -1067,6 +1067,14 @@ def build_controls(prog: Program) -> list[tuple[str, str, str, str, str]]:
                 done3 = True
         if done3:
             break
+    # builder: the three-phase build() has no branch for constants (every round of `engine3 * 2.0` raises)
+    b3k = prog.func(f"{ENGINE}:HigherOrderFormulaBuilder3Phase.build")
+    for cmp_ in (x for x in ast.walk(b3k.node) if isinstance(x, ast.Compare)):
+        if "TokenType.CONSTANT" in u(cmp_):
+            ctxt = seg(b3k.module, cmp_)
+            add("three-phase build() drops constant tokens", ENGINE, src_patch(
+                b3k.module, cmp_.lineno, cmp_.end_lineno or cmp_.lineno, lambda t, ctxt=ctxt: t.replace(ctxt, "False", 1)), "C13.TOTAL")
+            break
     # builder: a "pass-through" shortcut hands the operand's inner stream on
     for c in calls_in(b, lambda c: isinstance(c.func, ast.Attribute) and c.func.attr == "push_metric")[:1]:
         for a_ in list(c.args) + [k.value for k in c.keywords]:
@@ -1146,7 +1154,7 @@ def build_controls(prog: Program) -> list[tuple[str, str, str, str, str]]:
                 fn_, a, lambda t, a=a, others=others: f"{' ' * a.col_offset}{a.targets[0].id} = " + " + ".join(f"str({o})" for o in others) + "\n"), "C13.POOL")
             break
     if len(out) < 6:
-        raise AnalysisError(f"C13: only {len(out)} of 18 seeded controls could be derived from the source ({[o[0] for o in out]})")
+        raise AnalysisError(f"C13: only {len(out)} of 19 seeded controls could be derived from the source ({[o[0] for o in out]})")
     return out
 
 
@@ -1191,6 +1199,7 @@ def run_rules(run: Run, prog: Program) -> None:
     check_emit(run, prog)
     check_conv(run, prog)
     check_sub(run, prog)
+    check_token_kinds(run, prog)
     check_policy_key(run, prog)
 
 
@@ -1255,6 +1264,20 @@ def check_sub(run: Run, prog: Program) -> None:
                       "The same holds for any shortcut that reaches into the operand (`._builder`, a fetcher's `.stream`, a cached "
                       "input receiver) on some branch only", node=c, file=raw.file,
                       instance=f"{raw.qual}: push_metric #{k + 1} gets <engine>.new_receiver()")
+
+
+def check_token_kinds(run: Run, prog: Program) -> None:
+    """C13.TOTAL (composition API; "a sample is emitted for every input timestamp"): a token kind the operator methods
+    record (COMPONENT_METRIC, OPER, CONSTANT) but a build() does not replay leaves an operator without its operand in
+    the compiled steps -- every evaluation raises, FormulaEngine._run drops every round, no sample (not even None) is
+    ever emitted.  The sibling agreement "both build() methods handle every kind the builder can hold, each through its
+    own push" is C05.TAB's (check_ho_kinds / check_ho_build), run there and reported here."""
+    from . import c05
+
+    s05 = Run("C05", "quick", 0)
+    c05.check_ho_kinds(s05, prog)
+    c05.check_ho_build(s05, prog)
+    rereport(run, s05, ("C05.TAB",), "C13.TOTAL")
 
 
 def check_policy_key(run: Run, prog: Program) -> None:
